@@ -704,8 +704,13 @@ def baseStep (st : St) (args : List String) : St × String :=
     let (l, o) := Led.step st.led args
     ({ st with led := l, cur := none }, o)
   | ["wallet", w] =>
+    -- set-up ops carry the model's answer as spec too: a panic or a hang in them is a violation
     let (l, o) := Led.step st.led args
-    ({ st with led := l, apiWallets := if o = "ok" then st.apiWallets ++ [w] else st.apiWallets }, o)
+    ({ st with led := l, apiWallets := if o = "ok" then st.apiWallets ++ [w] else st.apiWallets }, o ++ "\t" ++ o)
+  | ["addr", w, _, _] =>
+    let st1 := useEffect st w
+    let (l, o) := Led.step st1.led args
+    ({ st1 with led := l }, o ++ "\t" ++ o)
   | ["tx", t, u, ins, outs] =>
     let (l, o) := Led.step st.led ["tx", t, u, ins, scaleOuts outs]
     ({ st with led := l }, o)
